@@ -37,6 +37,46 @@ use crate::protocol::Version;
 use crate::stack::{InstanceObject, StackObject, StackObjectRef};
 use std::collections::{HashMap, HashSet};
 
+/// does `from` hold, directly or through the objects it contains, a strong
+/// handle to `target`?
+///
+/// storing `from` inside `target` would then close a reference-counted cycle
+/// that is never freed. container contents are not consulted for any
+/// generation decision, so callers simply do not record such a member.
+fn reaches(from: &StackObjectRef, target: &StackObjectRef) -> bool {
+    let mut seen: HashSet<*const std::cell::RefCell<StackObject>> = HashSet::new();
+    let mut todo = vec![from.clone()];
+    while let Some(obj) = todo.pop() {
+        if obj == *target {
+            return true;
+        }
+        if !seen.insert(std::rc::Rc::as_ptr(&obj.0)) {
+            continue;
+        }
+        match &*obj.borrow() {
+            StackObject::List(items) | StackObject::Tuple(items) => {
+                todo.extend(items.iter().cloned());
+            }
+            StackObject::Dict(map) => {
+                for (key, value) in map {
+                    todo.push(key.clone());
+                    todo.push(value.clone());
+                }
+            }
+            StackObject::Set(items) | StackObject::FrozenSet(items) => {
+                todo.extend(items.iter().cloned());
+            }
+            StackObject::Instance(inst) => {
+                todo.push(inst.callable.clone());
+                todo.push(inst.args.clone());
+            }
+            StackObject::Callable(inner) => todo.push(inner.clone()),
+            _ => {}
+        }
+    }
+    false
+}
+
 impl Generator {
     /// clean up the stack to prepare for the STOP opcode.
     ///
@@ -178,7 +218,7 @@ impl Generator {
                     if let Some(cell) = self.peek() {
                         // check if it's a list first without holding the borrow
                         let is_list = matches!(*cell.borrow(), StackObject::List(_));
-                        if is_list {
+                        if is_list && !reaches(&item, cell) {
                             // now mutably borrow to append
                             if let StackObject::List(ref mut list) = *cell.borrow_mut() {
                                 list.push(item);
@@ -198,6 +238,7 @@ impl Generator {
                 items_to_append.reverse();
 
                 if let Some(list_obj) = self.peek() {
+                    items_to_append.retain(|item| !reaches(item, list_obj));
                     if let StackObject::List(ref mut list) = *list_obj.borrow_mut() {
                         list.extend(items_to_append);
                     }
@@ -280,7 +321,7 @@ impl Generator {
                         if let Some(cell) = self.peek() {
                             // Check if it's a dict first without holding the borrow
                             let is_dict = matches!(*cell.borrow(), StackObject::Dict(_));
-                            if is_dict {
+                            if is_dict && !reaches(&key, cell) && !reaches(&value, cell) {
                                 // now mutably borrow to insert
                                 if let StackObject::Dict(ref mut dict) = *cell.borrow_mut() {
                                     dict.insert(key, value);
@@ -305,6 +346,8 @@ impl Generator {
                     // check if it's a dict first without holding the borrow
                     let is_dict = matches!(*cell.borrow(), StackObject::Dict(_));
                     if is_dict {
+                        accumulated
+                            .retain(|(key, value)| !reaches(key, cell) && !reaches(value, cell));
                         // now mutably borrow to insert all items
                         if let StackObject::Dict(ref mut dict) = *cell.borrow_mut() {
                             for (key, value) in accumulated {
@@ -330,6 +373,7 @@ impl Generator {
                     // check if it's a set first without holding the borrow
                     let is_set = matches!(*cell.borrow(), StackObject::Set(_));
                     if is_set {
+                        accumulated.retain(|item| !reaches(item, cell));
                         // now mutably borrow to insert all items
                         if let StackObject::Set(ref mut set) = *cell.borrow_mut() {
                             for item in accumulated {
@@ -596,8 +640,10 @@ impl Generator {
 
                 // pops state and instance, updates instance's args
                 if let (Some(state), Some(instance_ref)) = (self.pop(), self.pop()) {
-                    if let StackObject::Instance(ref mut inst) = *instance_ref.borrow_mut() {
-                        inst.args = state;
+                    if !reaches(&state, &instance_ref) {
+                        if let StackObject::Instance(ref mut inst) = *instance_ref.borrow_mut() {
+                            inst.args = state;
+                        }
                     }
                     self.push(instance_ref.borrow().clone());
                 }
